@@ -408,7 +408,7 @@ class UnSSADiGraph(object):
             for i, assignblk in enumerate(assignblks):
                 out = {}
                 for dst, src in viewitems(assignblk):
-                    if dst == src:
+                    if dst == src and not dst.is_mem():
                         continue
                     out[dst] = src
                 assignblks[i] = AssignBlock(out, assignblk.instr)
